@@ -481,3 +481,39 @@ def literal_lexeme(pattern):
         else:
             return None
     return ''.join(out)
+
+
+def group_nfas(pattern, flags=0):
+    """{group number: NFA of that capture group's own language} and the list of top-level items
+    ('group', n, optional?) / ('anchor', name) / ('other',) in order."""
+    tree = sre_parse.parse(pattern, flags)
+    out = {}
+    layout = []
+
+    def visit(sub, optional):
+        for op, av in sub:
+            if op is sre_c.SUBPATTERN:
+                group, add_flags, del_flags, p = av
+                if group is not None:
+                    nfa = NFA()
+                    st = {'ic': bool(tree.state.flags & sre_c.SRE_FLAG_IGNORECASE), 'dotall': False, 'lookahead_consumes': True, 'groups': {}}
+                    s0 = nfa.new()
+                    f0 = _seq(nfa, p, s0, st)
+                    nfa.start, nfa.final = s0, f0
+                    out[group] = nfa
+                    layout.append(('group', group, optional))
+                else:
+                    visit(p, optional)
+            elif op in (sre_c.MAX_REPEAT, sre_c.MIN_REPEAT):
+                lo, hi, p = av
+                inner_groups = [x for x in p if x[0] is sre_c.SUBPATTERN]
+                if inner_groups:
+                    visit(p, optional or lo == 0)
+                else:
+                    layout.append(('other',))
+            elif op is sre_c.AT:
+                layout.append(('anchor', str(av)))
+            else:
+                layout.append(('other',))
+    visit(tree, False)
+    return out, layout
